@@ -1,7 +1,9 @@
 package main
 
-// Tables: package-level lists of records written as one composite literal (`var setters = []setter{{Key, func...}, ...}`) and walked
-// by a loop that uses the members of the current row. A rule that reasons about "the key looked up" and "the function called" has
+// Tables: lists of records written as one composite literal - a package-level variable (`var setters = []setter{{Key, func...}, ...}`)
+// or a local of the function that walks it (`rows := []struct{...}{{Key, func...}, ...}`, the rows' functions then being closures
+// over the function's other locals) - and walked by a loop that uses the members of the current row. A table is named by the
+// variable that holds it: the *ssa.Global, or for a local literal the *ssa.Alloc of its backing array. A rule that reasons about "the key looked up" and "the function called" has
 // to see each row on its own: row i pairs the i-th key with the i-th function. The helpers here recover the rows from the package
 // initialiser and recognise a member of the current row inside the loop, so a rule can evaluate the loop body once per row.
 
@@ -15,16 +17,28 @@ import (
 
 type tableRow map[int]ssa.Value // member index -> the value the literal gives it
 
-var tableRowsMemo = map[*ssa.Global][]tableRow{}
+var tableRowsMemo = map[ssa.Value][]tableRow{}
 
-// tableRows: the rows of a package-level slice/array of records that is assigned once, by the package initialiser, from a literal,
-// and whose elements are never written afterwards. nil when the variable is not of that kind.
-func (w *World) tableRows(g *ssa.Global) []tableRow {
-	if rows, ok := tableRowsMemo[g]; ok {
+// tableRows: the rows of a table: a package-level slice/array of records that is assigned once, by the package initialiser, from a
+// literal, and whose elements are never written afterwards; or the backing array of a local literal of records that is only
+// walked. nil when t is not of that kind.
+func (w *World) tableRows(t ssa.Value) []tableRow {
+	if rows, ok := tableRowsMemo[t]; ok {
 		return rows
 	}
-	tableRowsMemo[g] = nil
-	if g.Pkg == nil {
+	tableRowsMemo[t] = nil
+	var g *ssa.Global
+	switch x := t.(type) {
+	case *ssa.Global:
+		g = x
+	case *ssa.Alloc:
+		rows := localTableRows(x)
+		tableRowsMemo[t] = rows
+		return rows
+	default:
+		return nil
+	}
+	if g == nil || g.Pkg == nil {
 		return nil
 	}
 	et := g.Type().(*types.Pointer).Elem().Underlying()
@@ -147,6 +161,250 @@ func (w *World) tableRows(g *ssa.Global) []tableRow {
 	return rows
 }
 
+// localTableRows: al is the backing array of a local literal of records (`rows := []T{{..}, {..}}`, or a local array literal): every
+// element is filled exactly once, at a constant index, in the block that makes the array (in place or from a record literal copied
+// into the slot), and afterwards the array - directly, or through the slice `al[:]`, kept in a variable that is assigned only that -
+// is only measured and indexed, its elements only read (as a whole or member by member). No alias exists through which a row could
+// be changed or replaced: the rows are what the literal says. nil otherwise.
+func localTableRows(al *ssa.Alloc) []tableRow {
+	pt, ok := al.Type().Underlying().(*types.Pointer)
+	if !ok {
+		return nil
+	}
+	arr, ok := pt.Elem().Underlying().(*types.Array)
+	if !ok {
+		return nil
+	}
+	if _, isRec := arr.Elem().Underlying().(*types.Struct); !isRec {
+		return nil
+	}
+	okAll := true
+	rowsByIdx := map[int64]tableRow{}
+	setMember := func(row tableRow, field int, val ssa.Value, st *ssa.Store) {
+		if _, dup := row[field]; dup || st.Block() != al.Block() {
+			okAll = false
+			return
+		}
+		row[field] = stripIdentity(val)
+	}
+	// fillFrom: the member stores into the record at rec (the slot itself, or the literal that is copied into it)
+	fillFrom := func(row tableRow, rec ssa.Value, slot bool) {
+		for _, ref := range refsOf(rec) {
+			switch x := ref.(type) {
+			case *ssa.DebugRef:
+			case *ssa.FieldAddr:
+				for _, r2 := range refsOf(x) {
+					switch y := r2.(type) {
+					case *ssa.DebugRef:
+					case *ssa.Store:
+						if y.Addr != ssa.Value(x) {
+							okAll = false
+							continue
+						}
+						setMember(row, x.Field, y.Val, y)
+					case *ssa.UnOp:
+						if y.Op != token.MUL {
+							okAll = false
+						}
+					default:
+						okAll = false
+					}
+				}
+			case *ssa.UnOp: // the literal is loaded to be copied into the slot
+				if x.Op != token.MUL || slot {
+					okAll = false
+				}
+			case *ssa.Store:
+				if !slot || x.Addr != rec {
+					okAll = false
+				}
+			default:
+				okAll = false
+			}
+		}
+	}
+	// readOnlyElem: the element at ia is only read
+	readOnlyElem := func(ia *ssa.IndexAddr) {
+		for _, ref := range refsOf(ia) {
+			switch x := ref.(type) {
+			case *ssa.DebugRef:
+			case *ssa.UnOp:
+				if x.Op != token.MUL {
+					okAll = false
+				}
+			case *ssa.FieldAddr:
+				for _, r2 := range refsOf(x) {
+					switch y := r2.(type) {
+					case *ssa.DebugRef:
+					case *ssa.UnOp:
+						if y.Op != token.MUL {
+							okAll = false
+						}
+					default:
+						okAll = false
+					}
+				}
+			default:
+				okAll = false
+			}
+		}
+	}
+	var walked func(base ssa.Value, depth int)
+	walked = func(base ssa.Value, depth int) {
+		if depth > 3 {
+			okAll = false
+			return
+		}
+		for _, ref := range refsOf(base) {
+			switch x := ref.(type) {
+			case *ssa.DebugRef:
+			case *ssa.IndexAddr:
+				if x.X != base {
+					okAll = false
+					continue
+				}
+				written := false
+				for _, r2 := range refsOf(x) {
+					switch y := r2.(type) {
+					case *ssa.Store:
+						written = true
+					case *ssa.FieldAddr:
+						for _, r3 := range refsOf(y) {
+							if _, isSt := r3.(*ssa.Store); isSt {
+								written = true
+							}
+						}
+					}
+				}
+				if !written {
+					readOnlyElem(x)
+					continue
+				}
+				// a slot of the literal
+				k, isK := x.Index.(*ssa.Const)
+				if base != ssa.Value(al) || !isK || k.Value == nil || k.Value.Kind() != constant.Int {
+					okAll = false
+					continue
+				}
+				row := rowsByIdx[k.Int64()]
+				if row == nil {
+					row = tableRow{}
+					rowsByIdx[k.Int64()] = row
+				}
+				nWhole := 0
+				for _, r2 := range refsOf(x) {
+					if st, isSt := r2.(*ssa.Store); isSt {
+						ld, isLd := st.Val.(*ssa.UnOp)
+						if st.Addr != ssa.Value(x) || !isLd || ld.Op != token.MUL || st.Block() != al.Block() {
+							okAll = false
+							continue
+						}
+						lit, isLit := ld.X.(*ssa.Alloc)
+						if !isLit || len(refsOf(ld)) != 1 {
+							okAll = false
+							continue
+						}
+						nWhole++
+						fillFrom(row, lit, false)
+					}
+				}
+				if nWhole > 1 {
+					okAll = false
+				}
+				fillFrom(row, x, true)
+			case *ssa.Slice:
+				if x.X != base || x.Low != nil || x.High != nil || x.Max != nil {
+					okAll = false
+					continue
+				}
+				walked(x, depth+1)
+			case *ssa.Call:
+				if b, isB := x.Call.Value.(*ssa.Builtin); !isB || (b.Name() != "len" && b.Name() != "cap") {
+					okAll = false
+				}
+			case *ssa.Store:
+				// the slice kept in a local variable that is assigned nothing else and only read
+				cell, isCell := x.Addr.(*ssa.Alloc)
+				if !isCell || x.Val != base || base == ssa.Value(al) {
+					okAll = false
+					continue
+				}
+				for _, r2 := range refsOf(cell) {
+					switch y := r2.(type) {
+					case *ssa.DebugRef:
+					case *ssa.Store:
+						if y != x {
+							okAll = false
+						}
+					case *ssa.UnOp:
+						if y.Op != token.MUL {
+							okAll = false
+							continue
+						}
+						walked(y, depth+1)
+					default:
+						okAll = false
+					}
+				}
+			default:
+				okAll = false
+			}
+		}
+	}
+	walked(al, 0)
+	if !okAll || len(rowsByIdx) == 0 || int64(len(rowsByIdx)) != arr.Len() {
+		return nil
+	}
+	rows := make([]tableRow, arr.Len())
+	for i := range rows {
+		rows[i] = rowsByIdx[int64(i)]
+		if rows[i] == nil {
+			return nil
+		}
+	}
+	return rows
+}
+
+// localTableOf: base is a local table as a loop indexes it: the backing array itself, the slice `array[:]`, or a load of the local
+// variable that slice was assigned to. The array, or nil.
+func localTableOf(base ssa.Value) *ssa.Alloc {
+	base = stripIdentity(base)
+	for i := 0; i < 3; i++ {
+		switch x := base.(type) {
+		case *ssa.Alloc:
+			if pt, ok := x.Type().Underlying().(*types.Pointer); ok {
+				if _, isArr := pt.Elem().Underlying().(*types.Array); isArr {
+					return x
+				}
+			}
+			return nil
+		case *ssa.Slice:
+			base = x.X
+		case *ssa.UnOp:
+			cell, isCell := x.X.(*ssa.Alloc)
+			if x.Op != token.MUL || !isCell {
+				return nil
+			}
+			var only ssa.Value
+			for _, ref := range refsOf(cell) {
+				if st, isSt := ref.(*ssa.Store); isSt && st.Addr == ssa.Value(cell) {
+					if only != nil {
+						return nil
+					}
+					only = st.Val
+				}
+			}
+			if only == nil {
+				return nil
+			}
+			base = only
+		default:
+			return nil
+		}
+	}
+	return nil
+}
+
 func loadsGlobal(v ssa.Value, g *ssa.Global) bool {
 	v = stripIdentity(v)
 	if v == ssa.Value(g) {
@@ -158,7 +416,7 @@ func loadsGlobal(v ssa.Value, g *ssa.Global) bool {
 
 // rowMemberOf: v is a member of "the current row" of a table: t[i].m read through the element's address or through a copy of the
 // element. Returns the table and the member index.
-func (w *World) rowMemberOf(v ssa.Value) (*ssa.Global, int, bool) {
+func (w *World) rowMemberOf(v ssa.Value) (ssa.Value, int, bool) {
 	v = stripIdentity(v)
 	var elemAddr ssa.Value
 	field := -1
@@ -189,16 +447,22 @@ func (w *World) rowMemberOf(v ssa.Value) (*ssa.Global, int, bool) {
 	} else if ld, ok := base.(*ssa.UnOp); ok && ld.Op == token.MUL {
 		g, _ = ld.X.(*ssa.Global)
 	}
-	if g == nil || w.tableRows(g) == nil {
+	if g == nil {
+		if al := localTableOf(ia.X); al != nil && w.tableRows(al) != nil {
+			return al, field, true
+		}
+		return nil, 0, false
+	}
+	if w.tableRows(g) == nil {
 		return nil, 0, false
 	}
 	return g, field, true
 }
 
 // tablesWalkedBy: the tables whose current-row members fn reads.
-func (w *World) tablesWalkedBy(fn *ssa.Function) []*ssa.Global {
-	var out []*ssa.Global
-	seen := map[*ssa.Global]bool{}
+func (w *World) tablesWalkedBy(fn *ssa.Function) []ssa.Value {
+	var out []ssa.Value
+	seen := map[ssa.Value]bool{}
 	forEachInstr(fn, func(_ *ssa.BasicBlock, ins ssa.Instruction) {
 		v, ok := ins.(ssa.Value)
 		if !ok {
@@ -213,7 +477,7 @@ func (w *World) tablesWalkedBy(fn *ssa.Function) []*ssa.Global {
 }
 
 // rowEnv: the row each table is at while a rule evaluates a loop body row by row.
-type rowEnv map[*ssa.Global]int
+type rowEnv map[ssa.Value]int
 
 // resolveRow: v with a current-row member replaced by what the row's literal gives that member.
 func (w *World) resolveRow(v ssa.Value, env rowEnv) ssa.Value {
